@@ -1056,8 +1056,37 @@ func genTimeouts(p *params, emit func(string, bool)) {
 	}
 }
 
+// "the count starts afresh after the pause", deterministically (no random control operation has to fall into place): one run
+// fails until it is paused at its n-th failure, is resumed through the API, and fails again — it must again take n failures,
+// on the step path and on the timeout path alike (after the resume the timeout path has two due timers: the one that was never
+// completed and the one the inserter creates for the re-announced arrival)
+func genPauseResumePause(p *params, emit func(string, bool)) {
+	for n := 2; n <= 4; n++ {
+		for _, f := range []string{
+			"S:1:E,1,11:2:0:%d:0 S:2:R,1,3:3:0:0:0 O:retry=-1",
+			"S:1:R,1,2:2:0:0:0 T:2:10:E,1,13:3:%d O:retry=-1",
+			"S:1:R,1,2:2:0:0:0 T:2:10:E,1,13:3:0 O:dpause=%d,retry=-1",
+			"S:1:R,1,2:2:0:0:0 T:2:-2:R,1,3:3:%d O:retry=-1",
+		} {
+			pr := mkProg("pause-resume-pause", fmt.Sprintf(f, n))
+			ops := []string{"tr:1:0:4", "tr:2:0:7"}
+			ops = append(ops, pr.rounds(3)...)
+			ops = append(ops, adv(10))
+			ops = append(ops, pr.rounds(2*n+3)...)
+			for rep := 0; rep < 2; rep++ {
+				ops = append(ops, "ct:1:1", "ct:2:1")
+				ops = append(ops, pr.rounds(2)...)
+				ops = append(ops, adv(10))
+				ops = append(ops, pr.rounds(2*n+3)...)
+			}
+			emit(scenario(pr, ops), true)
+		}
+	}
+}
+
 func genPausing(p *params, emit func(string, bool)) {
 	r := p.rng
+	genPauseResumePause(p, emit)
 	for n := 0; n <= 6; n++ {
 		for _, f := range pauseProgramsFmt {
 			pr := mkProg("pause", fmt.Sprintf(f, n))
